@@ -53,6 +53,7 @@ var specs = []Spec{
 	{"x/tradeshield/keeper", "msgServer.UpdatePerpetualOrder", "updatePerpGuards", false, true, ""},
 	{"x/oracle/keeper", "msgServer.FeedPrice", "feedPriceGuards", false, true, ""},
 	{"x/amm/keeper", "Keeper.ExitPool", "exitPoolGuards", false, true, ""},
+	{"x/perpetual/keeper", "Keeper.CheckAndLiquidateUnhealthyPosition", "perpLiquidateGuards", false, true, "if mtp.MtpHealth.LTE(safetyFactor)"},
 	{"x/perpetual/keeper", "Keeper.ProcessOpen", "perpOpenHealthGuards", false, true, "stopLossPrice :="},
 	{"x/perpetual/keeper", "Keeper.OpenConsolidate", "perpConsolidateHealthGuards", false, true, "stopLossPrice :="},
 	{"x/leveragelp/keeper", "Keeper.ProcessOpenLong", "lpOpenHealthGuards", false, true, "position.LeveragedLpAmount ="},
@@ -68,6 +69,13 @@ var windowFrom = map[string]string{
 	"perpOpenHealthGuards":        "k.GetMTPHealth(",
 	"perpConsolidateHealthGuards": "k.GetMTPHealth(",
 	"lpOpenHealthGuards":          "k.GetPositionHealth(",
+	"perpLiquidateGuards":         "safetyFactor := k.GetSafetyFactor(ctx)",
+}
+
+// guardIf (prefix mode, with Until naming an `if` statement): the window ends WITH that statement's condition: the definition returns
+// whether the condition holds (true = the branch with the effects is entered)
+var guardIf = map[string]bool{
+	"perpLiquidateGuards": true,
 }
 
 // externs: callees that are loops; their hand-written Lean definitions are tied to the code by the differential harness only
